@@ -1,6 +1,7 @@
 package main
 
 import (
+	"go/types"
 	"fmt"
 	"sort"
 	"strings"
@@ -213,6 +214,41 @@ func checkC08(c *Ctx, r *Report) {
 		if !bad {
 			r.ok("R1", key, pos, fmt.Sprintf("phases reachable without AUTH(PLAIN): %v; none of their edges sends the MQTT CONNECT", keysInt(noAuth)))
 		}
+	}
+	// R5: "as configured": the flag the connect transaction consults is the configured AuthEnabled and nothing else
+	// (not a function of the session state, of the packet, ...) at every place a connect transaction is built
+	ctxType := c.gwConnectTx()
+	nCtor := 0
+	for _, f := range c.repoFuncs("gateway") {
+		allInstrs(f, func(i ssa.Instruction) {
+			call, ok := i.(*ssa.Call)
+			if !ok {
+				return
+			}
+			g := staticCallee(&call.Call)
+			if g == nil || fnPkgPath(g) != pkGateway || g.Signature.Results().Len() != 1 || typeStr(g.Signature.Results().At(0).Type()) != ctxType {
+				return
+			}
+			for ai, a := range call.Call.Args {
+				bt, ok := a.Type().Underlying().(*types.Basic)
+				if !ok || bt.Kind() != types.Bool {
+					continue
+				}
+				nCtor++
+				key := fmt.Sprintf("%s:connect-transaction-auth-flag(arg %d)", fnKey(f), ai)
+				os := c.origins(a)
+				okc := len(os) == 1 && (os[0].Kind == "param" || os[0].Kind == "freevar") && len(os[0].Path) >= 1 && os[0].Path[len(os[0].Path)-1] == "AuthEnabled"
+				var ds []string
+				for _, o := range os {
+					ds = append(ds, o.String())
+				}
+				r.cond(okc, "R5", key, c.instrPos(i), "the transaction's authentication flag is the configured AuthEnabled",
+					"the authentication flag given to the connect transaction is not simply the configured AuthEnabled ("+strings.Join(ds, "; ")+"): for some session state or packet the exchange runs as if authentication were configured differently (e.g. a re-CONNECT of an active client sends the MQTT CONNECT without AUTH)")
+			}
+		})
+	}
+	if nCtor == 0 {
+		r.undecided("R5", "connect-transaction-auth-flag", pos, "no constructor call of the connect transaction with a boolean argument found")
 	}
 	// R2: credential writers (only phases reachable for that configuration)
 	reachAll := map[[2]int64]map[int64]bool{}
